@@ -17,7 +17,12 @@ TRUSTED = [
     "parameter -> src_seeded_models; np.random.seed/set_state sites -> src_seed_sites; truthiness tests on any seed in the "
     "running modes / run.py / configuration builders / models -> src_seed_truthiness; how each branch of "
     "ArchipelagoDataTree._build iterates over the created islands -> src_island_build; numba-compiled draws -> "
-    "src_numba_sites; fails closed on other shapes; helper calls are followed by NAME inside pyxel/models, an "
+    "src_numba_sites; set_random_seed is read by walking its paths (seed None / not None, normal exit / exception "
+    "thrown in at the yield), the call chain, _build and the model functions after general normalisations "
+    "(translator/c04_norm.py: helpers of the same module / class inlined, guard clauses -> if/else, single-assignment "
+    "aliases and named intermediate results substituted, if/else assignment -> conditional expression); a row that does "
+    "not have the shape the theorems need is a broken obligation, never a violation by itself; "
+    "fails closed on other shapes; helper calls are followed by NAME inside pyxel/models, an "
     "over-approximation; set expressions are recognised syntactically: literals, set()/frozenset(), comprehensions, "
     "set methods, `a.keys() & b`, names bound to those)",
     "Section variables of Model/Rng.v: the generator is ANY (gen, val, seed_gen : Z -> gen, next : Z -> gen -> gen * val) "
@@ -26,7 +31,9 @@ TRUSTED = [
     "correspondence harness: harness/props/c04.py session generator, harness/drivers/c04.py (sha1 of "
     "np.random.get_state() at probe points, renumbered by first occurrence; child interpreters started with their own "
     "PYTHONHASHSEED, the generator state carried from one to the next; wrappers installed from outside around "
-    "np.random.seed / np.random.set_state (bracket trace with thread and seed), pygmo.island.__init__ (planned delays, "
+    "np.random.seed / np.random.set_state (bracket trace with thread and seed; after a run that raised the generator "
+    "state is taken while the exception is still referenced), one Detector object reused by several runs where the "
+    "session says so, pygmo.island.__init__ (planned delays, "
     "finishing order) and ArchipelagoDataTree.__init__/_build (parallel flag, seed of every island)), "
     "probes/verif_probes.py rng_probe/fail/write",
     "modelled, not verified: np.random.get_state()/set_state() capture and restore the whole legacy generator; distinct "
@@ -754,6 +761,9 @@ def run(ctx: Ctx):
         "multi-island calibrations use a deterministic pipeline and no pipeline seed: the island threads would otherwise "
         "interleave their brackets on the one process-wide generator (C07 / F16); what is judged there is the optimiser "
         "seed: island i must have the i-th derived seed whatever order the island threads start and finish in",
+        "history sessions: the same Detector OBJECT is handed to several runs (same seed, another seed, no seed) and "
+        "must give what a fresh detector gives; sar_adc_with_noise (stochastic, no `seed` parameter) runs under the "
+        "pipeline seed only",
         "a calibration's lazy champion data are not materialised (doing so fails in pyxel with KeyError 'pixel' for "
         "with_inherited_coords=True; not a C04 matter): its result is the champions' decision/fitness/parameters",
     ]
